@@ -930,11 +930,12 @@ func (h *hist) exportImport(rep *lib.Report, stepNo int) string {
 	return fmt.Sprintf("mk_imp_case %s %s", h.coqState(pre), lib.List(h.coqConfs(post)))
 }
 
-// reuseProbe: oracle X confirms through bridger b, rotates to a fresh bridger, oracle Y then takes over the released
-// account b, and the module is restarted from exported genesis.  InitGenesis resolves a confirm's owner by the bridger
-// written in it, so X's confirm is filed under Y (model: C12_import_misattributes_after_bridger_reuse).  Needs a
-// genesis restart with pending confirms AND a released bridger account re-bound to another oracle: reported as an
-// observation, not generated in the histories, no alarm.
+// reuseProbe (finding C12-1, scripted, run on every check): oracle X confirms oracle set #1 through bridger b, rotates
+// to a fresh bridger, oracle Y then takes over the released account b (both through the real MsgServer.EditBridger), and
+// the module is restarted from exported genesis (real ExportGenesis / store wiped / real InitGenesis).  InitGenesis
+// resolves a confirm's owner by the bridger written in it, so X's confirm - X's external key and signature - is filed
+// under Y.  Model: C12_import_misattributes_after_bridger_reuse.  The random histories never re-bind a released
+// account, so the rest of the property keeps being checked without this trigger.
 func reuseProbe(rep *lib.Report, seed int64) {
 	c := lib.NewChain(seed, 1, nil)
 	x := c.X("eth")
@@ -943,13 +944,18 @@ func reuseProbe(rep *lib.Report, seed int64) {
 	h := &hist{id: -1, chain: "eth", c: c, x: x, r: lib.NewRand(seed), ids: map[string]int64{}}
 	pre := h.snapshot()
 	set := pre.find(KSet, "", 1)
+	bad := func(what string) {
+		rep.Fail(lib.Failure{Kind: "harness", Sig: "C12/reuse-probe-setup", What: "bridger-reuse probe could not be set up: " + what})
+	}
 	if set == nil || set.obj == nil {
+		bad("no oracle set #1")
 		return
 	}
 	X, Y := x.Oracles[0], x.Oracles[1]
 	sig := ownSign(false, keccak(Encode(set.obj, pre.gid, true)), X.External)
 	b := X.Bridger
 	if err := h.exec(stepPlan{msg: confirmMsg{kind: KSet, nonce: 1, bridger: b.Acc().String(), external: X.ExtAddr, sigHex: hex.EncodeToString(sig)}}); err != nil {
+		bad("X's confirm refused: " + err.Error())
 		return
 	}
 	h.editBridgerOf(0)
@@ -957,17 +963,32 @@ func reuseProbe(rep *lib.Report, seed int64) {
 		_, err := x.Msg().EditBridger(ctx, &crosschaintypes.MsgEditBridger{ChainName: "eth", OracleAddress: Y.Oracle.Acc().String(), BridgerAddress: b.Acc().String()})
 		return err
 	}); err != nil {
+		bad("Y could not bind the released bridger: " + err.Error())
 		return
 	}
 	tmp := lib.NewReport("C12")
-	h.exportImport(tmp, 0)
+	item := h.exportImport(tmp, 0)
+	rep.Case("probe/bridger-reuse-restart", true)
+	if item != "" {
+		probeItems = append(probeItems, item)
+	}
+	hit := false
 	for _, f := range tmp.Failures {
-		if strings.HasPrefix(f.Sig, "C12/confirm-misattributed") {
-			addNote(rep, "observation (lifecycle corner, no alarm): after oracle X confirmed through bridger b, rotated away from b, and oracle Y took over the released account b, a restart from exported genesis files X's confirm under Y "+
-				"(InitGenesis resolves the owner by the bridger written in the confirm): "+f.What+" - model witness C12_import_misattributes_after_bridger_reuse; guard of C12_import_sound")
-			rep.Count("probe: bridger reuse + genesis restart misattributes a confirm")
-			return
+		if f.Kind == "monitor" && !hit {
+			hit = true
+			rep.Fail(lib.Failure{Kind: "monitor", Sig: "C12/import-misattributed/released-bridger-rebound",
+				What: "after oracle X confirmed through bridger b, rotated away from b, and oracle Y bound the released account b, a restart from exported genesis stores X's confirmation under Y: " + f.What,
+				Replay: map[string]interface{}{"probe": "bridger-reuse-restart", "seed": seed, "steps": h.log}})
+		} else if f.Kind != "monitor" {
+			rep.Fail(f)
 		}
 	}
-	rep.Count("probe: bridger reuse + genesis restart keeps attribution")
+	if hit {
+		rep.Count("probe: bridger reuse + genesis restart misattributes a confirm (C12-1)")
+	} else {
+		rep.Count("probe: bridger reuse + genesis restart keeps attribution")
+	}
 }
+
+// Coq cases produced by the probe (appended to Cases_C12_imp.v)
+var probeItems []string
